@@ -103,6 +103,10 @@ def body(chk):
     getters.obligations(chk, 'C01')
     summ_event.handle_event_obligations(chk, 'C01')
     fail_on_skipped.obligations(chk, 'C01', only_core=True)
+    # the verdict is computed from events: the real run_scenario attempt must say "retries left" on its failure events
+    # exactly when another attempt follows (else a final failure is counted as retried and the run passes)
+    from checks import attempt_driver
+    attempt_driver.run(chk, 'C01')
 
 
 def confirm_hook_retry(chk, o):
